@@ -430,7 +430,16 @@ let pd file =
     | ["end"] -> ()
     | ["hdr"; bos; h] ->
         let (v, s') = headerin !hs (bos = "1") (bytes_of_hex h) in
-        hs := s'; Printf.printf "hdr %s\n" (hv v)
+        let before = !hs in
+        hs := s'; Printf.printf "hdr %s\n" (hv v);
+        if v = HOk then begin
+          (match before.h_ident, s'.h_ident with
+           | None, Some i -> Printf.printf "ident %d %d %d %d %d %d %d\n" (iz i.i_channels) (iz i.i_rate) (iz i.i_upper) (iz i.i_nominal) (iz i.i_lower) (iz i.i_bs0) (iz i.i_bs1)
+           | _ -> ());
+          (match before.h_setup, s'.h_setup with
+           | None, Some st -> Printf.printf "setup %d %d %d %d %d\n" (List.length st.s_books) (List.length st.s_floors) (List.length st.s_residues) (List.length st.s_maps) (List.length st.s_modes)
+           | _ -> ())
+        end
     | ["init"] ->
         if !ds <> None then print_endline "init skipped"
         else begin
@@ -455,7 +464,8 @@ let pd file =
               | PNotAudio -> Printf.printf "%s ENOTAUDIO\n" op
               | PBadPacket -> Printf.printf "%s EBADPACKET\n" op
               | POk ->
-                  Printf.printf "%s OK %d %d %d %d %d\n" op (iz o.po_mode) (iz o.po_W) (iz o.po_lW) (iz o.po_nW) (if op = "trk" then -1 else iz o.po_left);
+                  let left = if op = "trk" then -1 else iz o.po_left in
+                  Printf.printf "%s OK %d %d %d %d %d\n" op (iz o.po_mode) (iz o.po_W) (iz o.po_lW) (iz o.po_nW) left;
                   if spec then List.iteri (fun c co ->
                     match co with
                     | CSpectrum v -> Printf.printf "ch %d %s\n" c (hex_of_f32s v)
